@@ -1,3 +1,59 @@
-From Gleece Require Import Base.Bytes Model.Project Model.Spec.
-Theorem placeholder : True. Proof. exact I. Qed.
-Print Assumptions placeholder.
+(* C04 - The security documented for an operation is the effective security of its route
+   (method's own @Security, else the controller's, else the configured default: same
+   schemes, scopes and order); every scheme named is declared; an undeclared scheme on a
+   documented route yields no document; with enforceSecurityOnAllRoutes a document exists
+   only if every route has a non-empty effective security.
+   Only statements here; every proof is [exact lemma] (Proofs/SpecProofs.v). *)
+From Gleece Require Import Base.Bytes Model.Project Model.Spec Proofs.SpecProofs.
+From Coq Require Import String.
+Open Scope list_scope.
+
+(* for every abstract project, whether or not a document is produced *)
+Theorem C04_holds : forall p, prop_C04 p (spec_ops p) = true.
+Proof. exact spec_ops_C04. Qed.
+
+(* the inheritance rule of the property text is the reduction the model performs ... *)
+Theorem C04_effective_by_text_eq : forall cfg c m,
+  effective_by_text cfg c m = effective_security cfg c m.
+Proof. exact effective_by_text_eq. Qed.
+
+(* ... and it is empty only when nothing is declared at any level *)
+Theorem C04_effective_empty_iff : forall cfg c m,
+  effective_security cfg c m = [] <->
+  m_security m = [] /\ c_security c = [] /\ cfg_default cfg = None.
+Proof. exact effective_empty_iff. Qed.
+
+(* the operation-level security is the effective list, and exists iff all of it is declared
+   (the second defaulting step in generateOperationSecurity never changes anything) *)
+Theorem C04_op_security_sound : forall cfg c m secu,
+  op_security cfg c m = Some secu ->
+  secu = map (fun x => (sc_name x, sc_scopes x)) (effective_security cfg c m) /\
+  forallb (fun x => declared cfg (sc_name x)) (effective_security cfg c m) = true.
+Proof. exact op_security_spec. Qed.
+
+Theorem C04_op_security_complete : forall cfg c m,
+  forallb (fun x => declared cfg (sc_name x)) (effective_security cfg c m) = true ->
+  op_security cfg c m =
+  Some (map (fun x => (sc_name x, sc_scopes x)) (effective_security cfg c m)).
+Proof. exact op_security_some. Qed.
+
+(* non-vacuity: security on the method, on the controller and from the default; the enforce
+   flag on; a hidden method naming an undeclared scheme; three tampered documents fail *)
+Example C04_nonvacuous :
+  spec_ops demo_project = Some demo_doc /\ List.length demo_doc = 4 /\
+  map o_security demo_doc =
+    [[(s "basic", [])]; [(s "oauth", [])]; [(s "oauth", [s "read"])];
+     [(s "basic", []); (s "oauth", [s "write"; s "admin"])]] /\
+  prop_C04 demo_project (spec_ops demo_project) = true /\
+  prop_C04 demo_project (Some (map (fun o => with_security o []) demo_doc)) = false /\
+  prop_C04 demo_project (Some (map (fun o => with_security o (rev (o_security o))) demo_doc)) = false /\
+  prop_C04 demo_project
+    (Some (map (fun o => with_security o (o_security o ++ [(s "undeclared", [])])) demo_doc)) = false.
+Proof. exact demo_C04. Qed.
+
+Print Assumptions C04_holds.
+Print Assumptions C04_effective_by_text_eq.
+Print Assumptions C04_effective_empty_iff.
+Print Assumptions C04_op_security_sound.
+Print Assumptions C04_op_security_complete.
+Print Assumptions C04_nonvacuous.
